@@ -144,15 +144,21 @@ Definition q_push (fore : bool) (w : qworld) (s : bool) (v : Z) : outcome (qworl
                 else l_add_prev (w_h w1) (qaddr s) node) ;
     Ok (setv (seth w1 h) node v, node).
 
-(* common tail of pull_fore / pull_back / remove:  if (a_que_die_(ctx,node)==0) { del_node; dtor; return node } *)
-Definition q_take (w : qworld) (s : bool) (node : id) : outcome (qworld * id) :=
+(* common tail of pull_fore / pull_back / remove / drop:
+     rc = a_que_die_(ctx, node);  if (rc == 0) { a_list_del_node(node); a_list_dtor(node); }   *)
+Definition q_take_rc (w : qworld) (s : bool) (node : id) : outcome (qworld * Z) :=
   doo xd <- q_die_ w s node ;
   let '(w1, rc) := xd in
   if Z.eqb rc 0 then
     doo h1 <- lift (l_del_node (w_h w1) node) ;
     doo h2 <- lift (l_init h1 node) ;
-    Ok (seth w1 h2, node)
-  else Ok (w1, 0).
+    Ok (seth w1 h2, 0%Z)
+  else Ok (w1, rc).
+
+(* ... return node + 1 on success, NULL otherwise *)
+Definition q_take (w : qworld) (s : bool) (node : id) : outcome (qworld * id) :=
+  doo x <- q_take_rc w s node ;
+  Ok (fst x, if Z.eqb (snd x) 0 then node else 0).
 
 Definition q_pull (fore : bool) (w : qworld) (s : bool) : outcome (qworld * id) :=
   let head := qaddr s in
@@ -322,13 +328,8 @@ Fixpoint q_drop_loop (w : qworld) (s : bool) (fuel : nat) : outcome (qworld * Z)
       doo node <- lift (rd_next (w_h w) head) ;
       if N.eqb node head then Ok (w, 0%Z)
       else
-        doo xd <- q_die_ w s node ;
-  let '(w1, rc) := xd in
-        if Z.eqb rc 0 then
-          doo h1 <- lift (l_del_node (w_h w1) node) ;
-          doo h2 <- lift (l_init h1 node) ;
-          q_drop_loop (seth w1 h2) s f
-        else Ok (w1, rc)
+        doo x <- q_take_rc w s node ;
+        if Z.eqb (snd x) 0 then q_drop_loop (fst x) s f else Ok x
   end.
 Definition q_drop (w : qworld) (s : bool) : outcome (qworld * Z) := q_drop_loop w s (fuel_of w).
 
